@@ -11,6 +11,7 @@ import (
 	"database/sql"
 	"fmt"
 	"regexp"
+	"runtime"
 	"strconv"
 	"sync"
 	"testing"
@@ -20,7 +21,7 @@ import (
 )
 
 type c16Conn struct {
-	Conn // unused methods
+	Conn  // unused methods
 	mu    sync.Mutex
 	stmts []string
 }
@@ -37,7 +38,21 @@ var c16RowRe = regexp.MustCompile(`\((\d+), (\d+)\)`)
 func TestVerifC16BulkInserterRace(t *testing.T) {
 	m := vk.New(t, "C16", "BulkInserter: 2-8 goroutines insert 200-1500 unique rows (adder, seq) each, interleaved with Flush / UpdateOrDelete; all executed INSERT statements are parsed back: every row exactly once, per-adder order inside a statement, <= 1000 rows per statement; under the race detector")
 	defer m.Done()
-	n := vk.N(25, 500)
+	c16BulkRun(m, vk.N(25, 500), false)
+}
+
+// TestVerifC16BulkInserterUpdateStmt: the same history oracle while one more goroutine keeps calling
+// UpdateStmt (flush + statement swap) and SetResultHandler against the inserters. It runs WITHOUT the
+// race detector: on the unchanged tree UpdateStmt writes dbInserter.stmt under the executor lock while
+// a batch already handed to the flusher reads it in Execute (a race on the statement text, outside C16);
+// the statement installed here has the same text, so whichever version a batch reads is the same one.
+func TestVerifC16BulkInserterUpdateStmt(t *testing.T) {
+	m := vk.New(t, "C16", "BulkInserter: 2-8 goroutines insert 200-1500 unique rows each while another goroutine calls UpdateStmt (same statement text) and SetResultHandler in a loop and inserters Flush / UpdateOrDelete now and then; every row must reach Exec exactly once, in per-adder order inside a statement, <= 1000 rows per statement; plain build")
+	defer m.Done()
+	c16BulkRun(m, vk.N(40, 600), true)
+}
+
+func c16BulkRun(m *vk.M, n int, withStmt bool) {
 	r := m.Rand("bulk")
 	for idx := 1; idx <= n; idx++ {
 		if !m.Only(idx) {
@@ -84,12 +99,43 @@ func TestVerifC16BulkInserterRace(t *testing.T) {
 				}
 			}(a)
 		}
-		if !vk.Within(60*time.Second, wg.Wait) {
+		stop := make(chan struct{})
+		stmtDone := make(chan struct{})
+		var stmtCalls int64
+		if withStmt {
+			go func() {
+				defer close(stmtDone)
+				for {
+					select {
+					case <-stop:
+						return
+					default:
+					}
+					if err := bi.UpdateStmt("insert into t (adder, seq) values (?, ?)"); err != nil {
+						m.Violate("C16:bulkinserter:updatestmt-error", desc, "UpdateStmt: %v", err)
+						return
+					}
+					stmtCalls++
+					if stmtCalls%3 == 0 {
+						bi.SetResultHandler(func(sql.Result, error) {})
+					}
+					runtime.Gosched()
+				}
+			}()
+		} else {
+			close(stmtDone)
+		}
+		finished := vk.Within(60*time.Second, wg.Wait)
+		close(stop)
+		if finished && !vk.Within(30*time.Second, func() { <-stmtDone }) {
+			m.Violate("C16:bulkinserter:hang", desc, "UpdateStmt did not return within 30 s\n%s", vk.Stacks()[:3000])
+			return
+		}
+		m.Count("updatestmt_calls", stmtCalls)
+		if !finished {
 			m.Violate("C16:bulkinserter:hang", desc, "inserters did not finish within 60 s\n%s", vk.Stacks()[:3000])
 			return
 		}
-		// UpdateStmt is not exercised: it writes dbInserter.stmt under the executor lock while a batch handed to the
-		// background flusher may still be reading it in Execute (a data race on the statement text, outside C16).
 		if !vk.Within(30*time.Second, func() { bi.Flush(); bi.executor.Wait() }) {
 			m.Violate("C16:bulkinserter:hang", desc, "final Flush+Wait did not return within 30 s\n%s", vk.Stacks()[:3000])
 			return
